@@ -681,12 +681,84 @@ Proof.
   rewrite X in E. discriminate.
 Qed.
 
+(* ================================================================ service level: served after own proof *)
+Lemma serve_conn_spec : forall lk conns, spec_circuit conns (flat_map (serve_conn lk) conns) = true.
+Proof.
+  intros lk. induction conns as [|[[c t] r] conns IH]; [reflexivity|].
+  cbn [flat_map]. unfold serve_conn at 1. cbn [app spec_circuit Z.eqb andb].
+  rewrite IH, andb_true_r.
+  destruct (init_connection 0 lk t r true) as [res es] eqn:IC. cbn [fst snd].
+  destruct res; cbn [andb zb Z.eqb]; try reflexivity.
+  destruct (ready_of es && negb (Z.eqb (bound_of es) (-1))); cbn [zb Z.eqb]; [|reflexivity].
+  destruct (auth_holds _ _ _ _ _ _ IC) as [a [_ [_ [_ [E _]]]]]. rewrite E. reflexivity.
+Qed.
+
+(* a connection is served (room list answered) only if the remote was entitled ON THIS CONNECTION,
+   whatever circuit the connection announces and whatever happened on other connections *)
+Theorem served_only_after_own_proof : forall lk circuit t r before ev after,
+  serve_conn lk (circuit, t, r) = [before; ev; after] -> before = 0%Z /\ (after = 1%Z -> exists k, entitled 0 t r = Some k).
+Proof.
+  intros lk circuit t r before ev after H. unfold serve_conn in H.
+  destruct (init_connection 0 lk t r true) as [res es] eqn:IC. cbn [fst snd] in H. inversion H; subst. split; [reflexivity|].
+  intro A. destruct res; cbn [andb zb] in A; try discriminate A.
+  destruct (auth_holds _ _ _ _ _ _ IC) as [a [_ [_ [_ [E _]]]]]. exists (a_key a). exact E.
+Qed.
+
+(* ================================================================ restarts: what was consumed is not reloaded *)
+Lemma rebuild_owned_iff : forall mk s i t, In (TkInvite i, t) (pm_tokens (rebuild mk s)) ->
+  (t = TOwned i /\ In i (sy_db_owned s)) \/ (exists a sg, t = TInvite i a sg /\ In (i, a, sg) (sy_db_invites s)).
+Proof.
+  intros mk s i t H. unfold rebuild, with_tokens in H. cbn [pm_tokens] in H.
+  destruct H as [H|H]; [discriminate H|].
+  apply in_app_or in H. destruct H as [H|H].
+  - apply in_map_iff in H. destruct H as [p [E _]]. inversion E as [[E1 E2]]. exfalso. eapply token_of_not_invite. exact E1.
+  - apply in_app_or in H. destruct H as [H|H].
+    + apply in_map_iff in H. destruct H as [j [E Hj]]. inversion E; subst. left. split; [reflexivity | exact Hj].
+    + apply in_map_iff in H. destruct H as [[[j a] sg] [E Hj]]. inversion E; subst. right. exists a, sg. split; [reflexivity | exact Hj].
+Qed.
+
+(* an owned invitation that was used — whether or not its default room could be granted — is gone
+   from the database, so no restart brings it back *)
+Theorem consumed_owned_not_reloaded : forall mk s inv p,
+  ~ In (TkInvite inv, TOwned inv) (pm_tokens (rebuild mk (consume_owned s inv p))).
+Proof.
+  intros mk s inv p H. apply rebuild_owned_iff in H. destruct H as [[_ H]|[a [sg [E _]]]]; [|discriminate E].
+  unfold consume_owned in H. cbn [sy_db_owned] in H. apply filter_In in H. destruct H as [_ H].
+  rewrite N.eqb_refl in H. discriminate H.
+Qed.
+Theorem consumed_invite_not_reloaded : forall mk s t inv p a sg,
+  ~ In (TkInvite inv, TInvite inv a sg) (pm_tokens (rebuild mk (consume_invite s t inv p))).
+Proof.
+  intros mk s t inv p a sg H. apply rebuild_owned_iff in H. destruct H as [[E _]|[a' [sg' [E H]]]]; [discriminate E|].
+  unfold consume_invite in H. cbn [sy_db_invites] in H. apply filter_In in H. destruct H as [_ H].
+  cbn [fst] in H. rewrite N.eqb_refl in H. discriminate H.
+Qed.
+
+Definition p2 : peer := {| p_key := 2; p_pub := 2 |}.
+Definition p3 : peer := {| p_key := 3; p_pub := 3 |}.
+Definition p4 : peer := {| p_key := 4; p_pub := 4 |}.
+(* class 4 (open): the default room cannot be granted -> the table keeps the invitation until restart *)
+Definition ungrantable : list dop :=
+  [DCreate 2; DConsume (TkInvite 1) p2; DConsume (TkInvite 1) p3; DRestart; DConsume (TkInvite 1) p4].
+(* grantable / no default room: once, across restarts *)
+Definition grantable : list dop :=
+  [DCreate 1; DCreate 0; DConsume (TkInvite 1) p2; DRestart; DConsume (TkInvite 1) p3; DConsume (TkInvite 2) p3; DRestart; DConsume (TkInvite 2) p4].
+Lemma invdb_witnesses :
+  run_C19 (CInvDb 1 me0 1 ungrantable) = [1; 1; 2; 1; 2; 1; 1; 0; 0; 0]%Z /\
+  spec_C19 (CInvDb 1 me0 1 ungrantable) (run_C19 (CInvDb 1 me0 1 ungrantable)) = false /\
+  known_C19 (CInvDb 1 me0 1 ungrantable) = [4]%Z /\
+  run_C19 (CInvDb 1 me0 1 grantable) = [1; 1; 1; 2; 2; 1; 1; 0; 0; 0; 2; 1; 1; 0; 0; 0]%Z /\
+  spec_C19 (CInvDb 1 me0 1 grantable) (run_C19 (CInvDb 1 me0 1 grantable)) = true /\
+  known_C19 (CInvDb 1 me0 1 grantable) = [].
+Proof. vm_compute. repeat split; reflexivity. Qed.
+
 (* ================================================================ run / spec, all three families *)
 Definition case_ok (c : c19case) : Prop :=
   match c with
   | CTokens secs probes => secs_fun secs /\ forall p, In p probes -> (fst p < length secs)%nat /\ (snd p < length secs)%nat
   | CInvites _ _ _ ops => ops_ok 1 (n_creates ops) ops = true
   | CSession nonces conns => length nonces = length conns /\ NoDup nonces
+  | CInvDb _ _ _ _ => False      (* histories with restarts and default rooms: targeted theorems only, compared case by case *)
   | _ => True
   end.
 
@@ -705,12 +777,14 @@ Qed.
 
 Theorem run_spec_outside_known : forall c, case_ok c -> known_C19 c = [] -> spec_C19 c (run_C19 c) = true.
 Proof.
-  intros c Ok K. destruct c as [ch lk t r ev | app me mk ops | secs probes | nonces conns]; cbn [spec_C19 run_C19].
+  intros c Ok K. destruct c as [ch lk t r ev | app me mk ops | secs probes | nonces conns | app me mk dops | lk cconns]; cbn [spec_C19 run_C19].
   - apply handshake_spec.
   - apply invite_holds. exact Ok.
   - destruct Ok as [F D]. destruct (probes_defined secs probes D) as [ts Hts]. rewrite Hts.
     apply spec_tokens_run; [exact F | apply known_tokens_no_clash; exact K | exact Hts].
   - destruct Ok as [L ND]. apply session_spec; assumption.
+  - destruct Ok.
+  - apply serve_conn_spec.
 Qed.
 
 Lemma tokens_refuted :
